@@ -21,7 +21,7 @@ RULE = ("scenario = proxy options {http_proxy_host/port, http_proxy_auth, http_n
         "HTTP_PROXY, https_proxy, HTTPS_PROXY, no_proxy, NO_PROXY} x scheme x target host (all dotted names of <=3 labels "
         "over {a, b, ab}, IPv4 literals) x exemption list (hosts, leading-dot domains, '*', canonical CIDR blocks of "
         "every prefix length 0..32 that do / do not contain the address) x proxy reply status x proxy URL with / without a "
-        "port x target port x optional redirect to another (scheme, host), each hop taking its own decision.  Oracle = independent "
+        "port x target port x credentials (user+password, user only: RFC 7617 keeps the colon) x create_connection / WebSocketApp.run_forever x optional redirect to another (scheme, host), each hop taking its own decision.  Oracle = independent "
         "decision function written from the property sentence, compared with the address the simulated network saw "
         "dialled and with what the proxy peer received.  Enumerated completely: every (leading-dot domain, host) pair "
         "over the 39 names (each domain also without its dot); every prefix length 0..32 containing / not containing; "
@@ -88,6 +88,7 @@ def plan(tier, seed):
              for i in range(0, len(NAMES), 5)]
     items.append({"kind": "cidr", "exhaustive": "every IPv4 prefix length 0..32, containing and not containing, option and environment"})
     items.append({"kind": "status", "exhaustive": "every proxy reply status x scheme x auth"})
+    items.append({"kind": "app", "exhaustive": "proxy by option / environment x credentials (none, user+password, user only) x exemption, through WebSocketApp.run_forever"})
     items.append({"kind": "portless", "exhaustive": "every proxy environment variable x proxy URL with / without port x target port"})
     items.append({"kind": "redirects", "exhaustive": "redirect from (scheme, host) to (scheme, host) x proxy by option / environment x exemption of either host"})
     n = 6000 if tier == "quick" else 120000
@@ -124,6 +125,15 @@ def expand(item, seed):
                     yield _base(host=ip, opt_proxy=False, scheme="wss" if p % 2 else "ws",
                                 env={("https_proxy" if p % 2 else "http_proxy"): f"http://{PROXY_HOST}:{PROXY_PORT}",
                                      "NO_PROXY" if p % 4 == 0 else "no_proxy": "localhost, " + c})
+    elif k == "app":
+        for scheme in ("ws", "wss"):
+            for auth in (None, ["user", "secret"], ["solo", ""]):
+                for np in (None, ["a.b"], [".b"], ["*"]):
+                    yield _base(scheme=scheme, opt_auth=auth, opt_no_proxy=np, api="app")
+            for var in ("http_proxy", "https_proxy"):
+                for url in (f"http://{PROXY_HOST}:{PROXY_PORT}", f"http://eu@{PROXY_HOST}:{PROXY_PORT}", f"http://eu:ep%40ss@{PROXY_HOST}:{PROXY_PORT}"):
+                    yield _base(scheme=scheme, opt_proxy=False, env={var: url}, api="app")
+                    yield _base(scheme=scheme, opt_proxy=False, env={var: url})
     elif k == "portless":
         for scheme in ("ws", "wss"):
             for var in ("http_proxy", "HTTP_PROXY", "https_proxy", "HTTPS_PROXY"):
@@ -163,7 +173,7 @@ def gen(rng):
     for var in ("http_proxy", "https_proxy"):
         if rng.random() < 0.45:
             v = var if rng.random() < 0.6 else var.upper()
-            auth = rng.choice(("", "", "eu:ep%40ss@"))
+            auth = rng.choice(("", "", "eu:ep%40ss@", "eu@"))
             env[v] = f"http://{auth}{PROXY_HOST}:{PROXY_PORT}" if rng.random() < 0.8 else f"http://{auth}{PROXY_HOST}" + rng.choice(("", "/"))
             if rng.random() < 0.15:
                 env[var.upper() if v == var else var] = env[v]
@@ -192,6 +202,8 @@ def gen(rng):
         else:
             env[rng.choice(("no_proxy", "NO_PROXY"))] = rng.choice((",", ", ")).join(entries)
     sc["env"] = env
+    if rng.random() < 0.15:
+        sc["api"] = "app"
     if rng.random() < 0.1 and not _is_ip(host):
         h2 = rng.choice([n for n in NAMES if n != host])
         sc["redirect"] = {"scheme": rng.choice(("ws", "wss")), "host": h2}
@@ -276,10 +288,28 @@ def run(sc, choices=None):
         if tls:
             import ssl
             kw["sslopt"] = {"cert_reqs": ssl.CERT_NONE, "check_hostname": False}
+        url_ = f"{scheme}://{host}{':%d' % port if sc.get('target_port') is not None else ''}/res?x=1"
         try:
-            c = ws.create_connection(f"{scheme}://{host}{':%d' % port if sc.get('target_port') is not None else ''}/res?x=1", timeout=3, **kw)
-            outcome = ("ok",)
-            c.close(timeout=1)
+            if sc.get("api") == "app":
+                # the same options through WebSocketApp.run_forever (which has its own defaults for them)
+                seen = []
+                sslopt = kw.pop("sslopt", None)
+
+                def _opened(a):
+                    seen.append("open")
+                    a.close()
+
+                app = ws.WebSocketApp(url_, on_open=_opened, on_error=lambda a, e: seen.append(e))
+                app.run_forever(sslopt=sslopt, **kw)
+                errs = [x for x in seen if x != "open"]
+                if errs and "open" not in seen:
+                    raise errs[0]
+                outcome = ("ok",)
+                res.probes["through_websocketapp"] = 1
+            else:
+                c = ws.create_connection(url_, timeout=3, **kw)
+                outcome = ("ok",)
+                c.close(timeout=1)
         except SimAbort:
             outcome = ("abort", w.k.abort_reason)
         except BaseException as e:  # noqa
@@ -301,7 +331,7 @@ def run(sc, choices=None):
         src, want_auth = "option", (auth if auth else None)
     elif envp:
         src = "env"
-        want_auth = ["eu", "ep@ss"] if "eu:" in envp else None
+        want_auth = ["eu", "ep@ss"] if "eu:" in envp else (["eu", ""] if "eu@" in envp else None)
     else:
         src, want_auth = None, None
     want_proxy = src is not None and not ex
@@ -367,7 +397,7 @@ def run(sc, choices=None):
             res.violate("direct_connect_failed", ctx, f"outcome {outcome}")
         elif proxy_peers:
             res.violate("proxy_contacted_although_direct", ctx, "proxy was contacted")
-    res.sig = repr((scheme, src, np_src, rel, status if want_proxy else 0, bool(want_auth), _is_ip(host)))
+    res.sig = repr((scheme, src, np_src, rel, status if want_proxy else 0, bool(want_auth), _is_ip(host), sc.get("api")))
     res.nontrivial = src is not None
     if via_proxy:
         res.probes["via_proxy"] = 1
@@ -530,4 +560,4 @@ def _relation(host, entries):
 
 
 def sample_view(sc, r):
-    return {k: sc.get(k) for k in ("scheme", "host", "opt_proxy", "opt_auth", "opt_no_proxy", "env", "status", "target_port", "redirect")}
+    return {k: sc.get(k) for k in ("scheme", "host", "opt_proxy", "opt_auth", "opt_no_proxy", "env", "status", "target_port", "redirect", "api")}
